@@ -7,7 +7,7 @@ if [ "$1" = "--recheck" ]; then RECHECK="--skip-verify"; shift; fi
 for item in "$@"; do
   root=${item%%:*}; id=${item##*:}
   wt=$root/$id
-  tag=$id; [ "$root" = "/tmp/seed2" ] && tag=R2$id; [ "$root" = "/tmp/seed3" ] && tag=R3$id
+  tag=$id; [ "$root" = "/tmp/seed2" ] && tag=R2$id; [ "$root" = "/tmp/seed3" ] && tag=R3$id; [ "$root" = "/tmp/seed4" ] && tag=R4$id
   git -C $wt checkout -q -- . 2>/dev/null
   git -C $wt checkout -q --detach main
   for d in $wt/OUT/*/; do
